@@ -61,8 +61,11 @@ def first_lines(t, key, n=12):
 
 # ----------------------------------------------------------------------------- run one plan in a fresh process
 
+KNOWN_IDS = ""
+
+
 def run_plan(root, binary, plan_path, scratch, timeout=60, want_log=False):
-    env = dict(os.environ, SIM_SCRATCH=scratch)
+    env = dict(os.environ, SIM_SCRATCH=scratch, SIM_KNOWN=KNOWN_IDS)
     cmd = [os.path.join(root, "build", binary), "--replay", plan_path] + (["--log"] if want_log else [])
     try:
         r = subprocess.run(cmd, cwd=root, env=env, stdout=subprocess.PIPE, stderr=subprocess.PIPE, text=True,
@@ -225,7 +228,7 @@ class Worker:
             cmd += ["--max-runs", str(spec["max_runs"])]
         if thorough:
             cmd.append("--thorough")
-        env = dict(os.environ, SIM_SCRATCH=scratch)
+        env = dict(os.environ, SIM_SCRATCH=scratch, SIM_KNOWN=KNOWN_IDS)
         self.errpath = os.path.join(scratch, "w%d.err" % slot)
         self.errf = open(self.errpath, "w")
         self.p = subprocess.Popen(cmd, cwd=root, env=env, stdout=subprocess.PIPE, stderr=self.errf, text=True, errors="replace")
@@ -411,6 +414,9 @@ def main(root, argv):
         return 2
     scratch = os.path.join(root, "build", "scratch", "d%d" % os.getpid())
     os.makedirs(scratch, exist_ok=True)
+    known = load_known(root)
+    global KNOWN_IDS
+    KNOWN_IDS = ",".join(k["id"] for k in known if k.get("status") == "finding" and k.get("id"))
     try:
         if replay:
             r = run_plan(root, spec["binary"], os.path.join(root, replay) if not os.path.isabs(replay) else replay, scratch, want_log=True)
@@ -422,7 +428,6 @@ def main(root, argv):
             return 1
         if budget is None:
             budget = spec["thorough_s"] if thorough else spec["quick_s"]
-        known = load_known(root)
         agg = run_batch(root, spec, seed, budget, thorough, scratch, nworkers)
         rc = 0
         violations, knowns, harness = [], [], []
@@ -437,6 +442,11 @@ def main(root, argv):
             else: harness.append(res[1])
         for k, info in knowns:
             print("KNOWN-FINDING: property=%s %s" % (k["property"], k["text"]))
+        for k in known:
+            hits = agg["counters"].get("finding:" + k.get("id", "?"), 0)
+            if k.get("status") == "finding" and hits > 0:
+                print("KNOWN-FINDING: property=%s %s (observed %d times in this batch)" % (k["property"], k["text"], hits))
+                knowns.append((k, {"path": ""}))
         for v in violations:
             print("violation class=%s\n  %s" % (v["cls"], v["detail"][:1200]))
             print("VIOLATION property=%s replay=%s" % (v["prop"], os.path.relpath(v["path"], root)))
